@@ -37,6 +37,10 @@ CTXS = {
     "li_bq": ("- > {}", "<ul>\n<li>\n<blockquote>\n<p>{}</p>\n</blockquote>\n</li>\n</ul>\n"),
     # the same text after / next to another inline block full of unfinished business (a stray closing tag, an unclosed one, open
     # emphasis, bracket, backtick, quote): nothing of it may carry over into the next inline block
+    # the same text in two inline blocks of one document (anything remembered per content must not be shared between them)
+    "twice_items": ("- {0}\n- {0}", "<ul>\n<li>{0}</li>\n<li>{0}</li>\n</ul>\n", "twice"),
+    "twice_cells": ("| {0} | {0} |\n|---|---|\n| {0} | {0} |\n", "<table>\n<thead>\n<tr>\n<th>{0}</th>\n<th>{0}</th>\n</tr>\n</thead>\n<tbody>\n<tr>\n<td>{0}</td>\n<td>{0}</td>\n</tr>\n</tbody>\n</table>\n", "twice"),
+    "twice_paras": ("{0}\n\n{0}\n\n> {0}", "<p>{0}</p>\n<p>{0}</p>\n<blockquote>\n<p>{0}</p>\n</blockquote>\n", "twice"),
     "sib_para": (LEFTOVERS + "\n\n{}", "<p>{}</p>\n", "suffix"),
     "sib_head": (LEFTOVERS + "\n\n## {}", "<h2>{}</h2>\n", "suffix"),
     "sib_item": ("- " + LEFTOVERS + "\n- {}", "<li>{}</li>\n</ul>\n", "suffix"),
@@ -100,16 +104,19 @@ def embed_case(ctx, case, count=True):
         return None
     if not (len(base) == 3 and base[0].type == "paragraph_open" and base[1].content == t):
         return None
-    if cn in ("li", "ol", "bq", "li_bq", "sib_item") and not t[0].isalnum():
+    if cn in ("li", "ol", "bq", "li_bq", "sib_item", "twice_items", "twice_paras") and not t[0].isalnum():
         return None
     if cn in ("head", "sib_head") and t.endswith("#"):
         return None
     if cn == "sib_para" and not t[0].isalnum():
         return None   # (must not be read as a block start or a setext underline after the first paragraph)
-    if cn in ("cell", "sib_cell") and (re.search(r"[|\\`]", t) or "table" not in md.get_active_rules()["block"]):
+    if cn in ("cell", "sib_cell", "twice_cells") and (re.search(r"[|\\`]", t) or "table" not in md.get_active_rules()["block"]):
         return None
     tm, frame = CTXS[cn][:2]
-    suffix = len(CTXS[cn]) > 2
+    suffix = len(CTXS[cn]) > 2 and CTXS[cn][2] == "suffix"
+    twice = len(CTXS[cn]) > 2 and CTXS[cn][2] == "twice"
+    if twice and ("{" in t or "}" in t):
+        return None
     src = tm.format(t)
     try:
         toks = md.parse(src)
@@ -122,6 +129,16 @@ def embed_case(ctx, case, count=True):
         if sum(1 for c in walk(base[1].children) if c.type != "text") >= 2:
             ctx.nontrivial("embed", cn, C.conf_id(case["conf"]), t)
     inl = [x for x in toks if x.type == "inline"]
+    if twice:
+        for x in inl:
+            if x.content != t:
+                return f"embed:{cn}:content", f"inline tokens {[y.content for y in inl]!r} for text {t!r} in {src!r}"
+            d = first_diff(sd(x.children), sd(base[1].children))
+            if d:
+                return f"embed:{cn}:children-differ", d
+        if len(inl) < 2:
+            return f"embed:{cn}:content", f"{len(inl)} inline tokens for {src!r}"
+        inl = inl[:1]
     if suffix:
         inl = inl[-1:]
     if len(inl) != 1 or inl[0].content != t:
@@ -348,7 +365,7 @@ def run(ctx):
             ctx.sample({"kind": "embed", "t": t, "conf": conf})
     # (3)
     extra = ["```py x=1\ncode <&>\n```\n", "~~~ a&amp;b \\*c\n~~~\n", "a\nb  \nc\\\nd\n\n![x\ny](s)\n", "---\n\n![i](s)\n\nl1\nl2\n", "```\nplain\n```\n\n    ind\n",
-             "- ```js\n  x\n  ```\n> ~~~ q\n> y\n", "``` &#35;lang&nbsp;rest more\nz\n```\n", "```\tt\n```\n"]
+             "- ```js\n  x\n  ```\n> ~~~ q\n> y\n", "```js\tlinenos\nx\n```\n", "~~~py\xa0x\n~~~\n", "``` c\u2003d\ne\n```\n", "```\tjs  \t k\nv\n```\n", "``` &#35;lang&nbsp;rest more\nz\n```\n", "```\tt\n```\n"]
     for k in range(ctx.scale(50000, 1500000)):
         src = rng.choice(extra) + (gen.any_doc(rng) if rng.random() < 0.5 else "") if rng.random() < 0.45 else gen.any_doc(rng)
         src = gen.strip_surrogates(src)[:3000]
